@@ -1091,3 +1091,42 @@ def run_c18(rec, F):
     ip_minus_one(rec, F)
     backtrace_window(rec, F)
     stub_pool_release(rec, F)
+
+
+def native_args_copied(rec, F):
+    """A native that runs on a stub frame (environment Normal) can call back into the VM (`print` -> `str()`, the iterator
+    natives, ClosureCall); the callee's frames can grow the fiber's stack, which reallocates it. The argument slice such a
+    native holds for the whole call must therefore be an owned copy, not a view of the stack."""
+    R = rec.rule("F8.native-args", "in Vm::call_native every Native::call that runs after push_frame (the native may call back, the stack may be reallocated under it) is given an owned copy of the arguments (to_vec/to_owned/clone/collect), not a view into the fiber's stack")
+    fn = F.find1(r"<impl laythe_vm::vm::Vm>::call_native$")
+    if fn is None:
+        rec.anchor_lost("F8.native-args", "Vm::call_native")
+        return
+    pushes = [bi for bi, t in fn.calls() if lastseg(t["f"]) == "push_frame"]
+    sites = [(bi, t) for bi, t in fn.calls() if lastseg(t["f"]) == "call" and "Native" in t["f"] and len(t["args"]) >= 3]
+    n = 0
+    for bi, t in sites:
+        if not any(p in fn.dom.get(bi, ()) for p in pushes):
+            continue    # a StackLess native: no frame, no call back
+        n += 1
+        cur = t["args"][2]
+        verdict = None
+        for _hop in range(8):
+            r = fn.root_of(cur)
+            if r[0] != "call":
+                verdict = "a value that is not produced by a copy (%s)" % (r[0],)
+                break
+            nm = lastseg(r[1].get("decl") or r[1]["f"])
+            if nm in ("to_vec", "to_owned", "clone", "collect", "into_vec", "to_vec_in", "from_iter"):
+                verdict = True
+                break
+            if nm in ("deref", "as_slice", "as_ref", "borrow", "index", "deref_mut", "as_mut_slice") and r[1]["args"]:
+                cur = r[1]["args"][0]
+                continue
+            verdict = "the result of %s" % nm
+            break
+        ok = verdict is True
+        rec.inst(R, "call_native: Native::call after push_frame gets a copy", ok=ok, loc=loc_of(t["sp"]))
+        if not ok:
+            rec.finding(R, "F8.native-args/view", "Vm::call_native hands a native that runs on a stub frame %s as its argument slice: when the native calls back into the VM and the stack grows, the slice points into the freed old stack (read after the next collection)" % verdict, loc=loc_of(t["sp"]), fn=fn.path)
+    rec.floor(R, "Native::call sites behind push_frame", n, 1)
